@@ -31,8 +31,9 @@ RMul(a, b) == LET g1 == Gcd(Abs(a[1]), b[2])
               IN  R((a[1] \div h1) * (b[1] \div h2), (a[2] \div h2) * (b[2] \div h1))
 RInv(a)    == R(a[2], a[1])
 RDiv(a, b) == RMul(a, RInv(b))
-RLe(a, b)  == a[1] * b[2] <= b[1] * a[2]
-RLt(a, b)  == a[1] * b[2] <  b[1] * a[2]
+\* (compared through the gcd-reduced difference: no cross product of the two denominators)
+RLe(a, b)  == RSub(a, b)[1] <= 0
+RLt(a, b)  == RSub(a, b)[1] < 0
 REq(a, b)  == a = b            \* normalised representation is unique
 
 \* sum of a rational-valued function over its domain
